@@ -10,8 +10,15 @@ FRQ = [1, 2, 4, 8, 16, 24, 32, 40, 48]           # packet durations in 2.5 ms un
 AMBI = [1, 3, 4, 6, 9, 11, 16, 18, 25, 27, 36, 38, 49, 51, 64, 66, 81, 83, 100, 102, 121, 123, 144, 146, 169, 171, 196, 198, 225, 227]
 PROJ = [4, 6, 9, 11, 16, 18, 25, 27, 36, 38]
 
-# known findings the coordinator has not moved into known_findings.json yet (none)
-PROVISIONAL = []
+# known findings the coordinator has not moved into known_findings.json yet
+PROVISIONAL = [
+    dict(property="C10", status="known", id="F10a",
+         key=dict(call="opus_projection_decoder_create", channels_nonpositive=True,
+                  site="src/opus_projection_decoder.c opus_projection_decoder_init: ALLOC(buf, nb_input_streams * channels, opus_int16)"),
+         what=("opus_projection_decoder_create/init with channels <= 0 and a matrix size of 2*channels*(streams+coupled) bytes (0 or negative) "
+               "passes the size check and declares a variable length array of zero or fewer elements before `channels` is validated: undefined "
+               "behaviour (UBSan vla-bound abort in the instrumented build; the production build goes on to return OPUS_BAD_ARG)")),
+]
 
 
 # --------------------------------------------------------------------------- TLC-generated inputs
@@ -35,7 +42,9 @@ def parse_prints(r):
 
 
 def create_lines(lays, fams):
+    """(commands run in bulk, commands run one per process: projection decoder with channels <= 0, see PROVISIONAL)"""
     out = []
+    iso = []
     for ch, S, C, mp in lays:
         tail = " ".join(str(x) for x in mp)
         out.append("C dec %d %d %d %s" % (ch, S, C, tail))
@@ -49,8 +58,9 @@ def create_lines(lays, fams):
             right = 2 * ch * (S + C)
             for msz in {right, right - 2, right + 2, 0}:
                 if 0 <= msz <= 140000:
-                    out.append("C pdec %d %d %d %d" % (ch, S, C, msz))
-    return out
+                    (iso if ch <= 0 else out).append("C pdec %d %d %d %d" % (ch, S, C, msz))
+    iso.append("C pdec -1 1 1 -4")
+    return out, sorted(set(iso))
 
 
 def d_lines(msps, rng):
@@ -170,24 +180,30 @@ def plan_executions(ctx, rng, enc_ok, dec_ok):
 
 
 # --------------------------------------------------------------------------- running and judging
-def run_chunks(ctx, exe, name, lines, nchunks, timeout=3000):
-    """split command lines over harness processes; returns [(input_path, output_path, rc, err)]"""
-    nchunks = max(1, min(nchunks, len(lines)))
-    parts = [[] for _ in range(nchunks)]
-    for i, ln in enumerate(lines):
-        parts[i % nchunks].append(ln)
+def run_groups(ctx, groups, timeout=3000):
+    """groups: [(exe, name, command lines, number of harness processes)]; all processes of all groups run concurrently.
+    Returns [(input_path, output_path, rc, err)] in group order."""
     jobs = []
-    for k, part in enumerate(parts):
-        ip = ctx.path("%s_%02d.txt" % (name, k))
-        with open(ip, "w") as f:
-            f.write("\n".join(part) + "\n")
-        jobs.append((ip, ctx.path("%s_%02d.ndjson" % (name, k))))
+    for exe, name, lines, nchunks in groups:
+        nchunks = max(1, min(nchunks, len(lines)))
+        parts = [[] for _ in range(nchunks)]
+        for i, ln in enumerate(lines):
+            parts[i % nchunks].append(ln)
+        for k, part in enumerate(parts):
+            ip = ctx.path("%s_%02d.txt" % (name, k))
+            with open(ip, "w") as f:
+                f.write("\n".join(part) + "\n")
+            jobs.append((exe, ip, ctx.path("%s_%02d.ndjson" % (name, k))))
 
     def one(job):
-        ip, op = job
+        exe, ip, op = job
         rc, err = vf.run_hx(exe, [], op, stdin_path=ip, timeout=timeout)
         return ip, op, rc, err
-    return vf.parallel(one, jobs, nproc=8)
+    return vf.parallel(one, jobs, nproc=10)
+
+
+def run_chunks(ctx, exe, name, lines, nchunks, timeout=3000):
+    return run_groups(ctx, [(exe, name, lines, nchunks)], timeout)
 
 
 def command_of(event, ip):
@@ -294,7 +310,7 @@ def judge(ctx, exe_hk, runs, what, cfg="MSTrace.cfg", drift=False):
         n = vf.count_lines(op)
         if n == 0:
             return job, ([], 0)
-        nparts = 1 if n < 1500 else min(4, n // 1500 + 1)
+        nparts = 1 if n < 6000 else min(6, n // 5000 + 1)
         return job, vf.validate_cases(ctx, "MSTrace", cfg, op, what + " " + os.path.basename(op), nparts=nparts, heap="3g")
     good = [(ip, op) for ip, op, rc, err in runs if os.path.exists(op) and os.path.getsize(op) > 0]
     nrej = 0
@@ -364,9 +380,29 @@ def confirm(ctx, exe, cmd, e):
     return len(rej) > 0
 
 
-def report_crashes(ctx, runs, what):
+def known_crash(ip, err):
+    """PROVISIONAL F10a: a single `C pdec ch ..` command with ch <= 0 aborting on the zero-length array"""
+    with open(ip) as f:
+        cmds = [l.split() for l in f if l.strip()]
+    if len(cmds) != 1 or cmds[0][:2] != ["C", "pdec"] or int(cmds[0][2]) > 0:
+        return None
+    if "opus_projection_decoder.c" in err and "variable length array bound" in err:
+        for k in vf.known_findings("C10") + PROVISIONAL:
+            if k.get("key", {}).get("call") == "opus_projection_decoder_create" and k.get("key", {}).get("channels_nonpositive"):
+                return k
+    return None
+
+
+def report_crashes(ctx, runs, what, iso_known=False):
+    told = False
     for ip, op, rc, err in runs:
         if rc != 0:
+            kf = known_crash(ip, err) if iso_known else None
+            if kf:
+                if not told:
+                    ctx.known_finding(kf["what"] + " [e.g. %s]" % open(ip).read().strip())
+                    told = True
+                continue
             # sanitizer / assertion abort, canary damage, hang: reported directly; what was recorded before it is still judged
             last = ""
             try:
@@ -424,10 +460,15 @@ def run(ctx):
     hko = vf.build_variant("hko")
     exe_o = vf.build_hx(hko, "ms.c")
     # 3. create calls, matrices, TLC-generated byte strings (sanitizer build)
-    cl = create_lines(lays, fams)
+    cl, iso = create_lines(lays, fams)
     dl = d_lines(msps, rng)
-    runs1 = run_chunks(ctx, exe_hk, "create", cl, 4) + run_chunks(ctx, exe_hk, "bytes", dl, 3) + run_chunks(ctx, exe_hk, "matrix", ["M"], 1)
+    runs1 = run_groups(ctx, [(exe_hk, "create", cl, 4), (exe_hk, "bytes", dl, 3), (exe_hk, "matrix", ["M"], 1)] +
+                       [(exe_hk, "pdeciso%d" % i, [c], 1) for i, c in enumerate(iso)])
+    runs_iso = [r0 for r0 in runs1 if "pdeciso" in os.path.basename(r0[0])]
+    runs1 = [r0 for r0 in runs1 if "pdeciso" not in os.path.basename(r0[0])]
     report_crashes(ctx, runs1, "create/bytes/matrix")
+    report_crashes(ctx, runs_iso, "projection decoder create", iso_known=True)
+    runs1 += [r0 for r0 in runs_iso if r0[2] == 0]
     # matrices: the design theorem on the exported tables
     mxp = ctx.path("matrices.ndjson")
     with open(mxp, "w") as fo:
@@ -457,7 +498,13 @@ def run(ctx):
                       replay_src=rp)
     for ip, op, rc, err in runs1:
         ctx.evaluations += scan(ctx, op)
-    judge(ctx, exe_hk, runs1, "C10 create/bytes")
+    # these events carry their whole command: judge them from one file (fewer TLC processes)
+    p1 = ctx.path("phase1.ndjson")
+    with open(p1, "w") as fo:
+        for ip, op, rc, err in runs1:
+            with open(op) as f:
+                fo.write(f.read())
+    judge(ctx, exe_hk, [(None, p1, 0, "")], "C10 create/bytes")
     # which layouts did the real create calls accept (their verdicts have just been judged)
     enc_ok, dec_ok = [], []
     for ip, op, rc, err in runs1:
@@ -480,8 +527,7 @@ def run(ctx):
     san = [X[i] for i in small_ix] + H[:nsan]
     bulk = [l for i, l in enumerate(X) if i not in set(small_ix)] + H[nsan:]
     bulk.sort(key=line_cost, reverse=True)          # round-robin over the sorted list balances the chunks
-    runs2 = run_chunks(ctx, exe_o, "exec", bulk, 10 if quick else 14, timeout=3000)
-    runs2 += run_chunks(ctx, exe_hk, "execsan", san, 4 if quick else 6, timeout=3000)
+    runs2 = run_groups(ctx, [(exe_o, "exec", bulk, 6 if quick else 12), (exe_hk, "execsan", san, 2 if quick else 4)])
     report_crashes(ctx, runs2, "executions")
     for ip, op, rc, err in runs2:
         ctx.evaluations += scan(ctx, op)
@@ -489,7 +535,14 @@ def run(ctx):
     nrej = judge(ctx, exe_hk, runs2, "C10 executions")
     # 5. model conformance beyond the property (SPEC-DRIFT only)
     if not ctx.violations:
-        judge(ctx, exe_hk, [r4 for r4 in runs1 if "create_" in os.path.basename(r4[1])] + runs2, "C10 strict", cfg="MSTraceStrict.cfg", drift=True)
+        ps = ctx.path("strict.ndjson")
+        with open(ps, "w") as fo:
+            for ip, op, rc, err in runs1 + runs2:
+                with open(op) as f:
+                    for ln in f:
+                        if ln.startswith('{"k":"pk"') or (ln.startswith('{"k":"cr"') and '"t":"surr"' in ln):
+                            fo.write(ln)
+        judge(ctx, exe_hk, [(None, ps, 0, "")], "C10 strict", cfg="MSTraceStrict.cfg", drift=True)
     # vacuity guards: every event kind was produced and judged
     for k in ("cr", "pk", "md", "tn", "pt", "mx", "pm"):
         if STAT["events"].get(k, 0) == 0:
